@@ -89,6 +89,31 @@ func runSelftest() int {
 			}
 		}
 	}
+	// background theory sanity: the axioms together with adversarial ground terms must not be refutable
+	seen := map[string]bool{"slen": true, "byteOf": true, "le2": true, "le4": true, "le8": true, "crcUpd": true}
+	pre, _ := strPrelude(seen)
+	seeds := `(declare-const a (Array Int Int))
+(declare-const s Str)
+(declare-const t Str)
+(assert (= (select a 0) 1000))
+(assert (= (select a 1) (- 5)))
+(assert (>= (sat (absB a 0 2) 0) (sat (absB a 0 2) 1)))
+(assert (= (slen (sconcat s t)) (slen (sconcat t s))))
+(assert (distinct (crcUpd (crcUpd 7 s) t) (- 1)))
+(assert (>= (le4 300 (- 1) 0 5) 0))
+(assert (>= (byteOf (le2 300 4) 0) 0))
+(assert (= (le8 (byteOf 70000 0) (byteOf 70000 1) (byteOf 70000 2) (byteOf 70000 3) (byteOf 70000 4) (byteOf 70000 5) (byteOf 70000 6) (byteOf 70000 7)) 70000))
+(assert (streq (absB a 0 0) sempty))
+(assert (not (streq (absB (store a 5 1) 0 2) (absB a 0 1))))
+`
+	script := "(set-logic ALL)\n(declare-sort Str 0)\n" + dtPrelude + pre + seeds + "(check-sat)\n"
+	r := Solve(script, true, 10, e.scratch, "axiom-sanity")
+	if r.Status == "unsat" {
+		fmt.Printf("SELFTEST-FAIL background axioms are refutable (%s): the theory is inconsistent\n", r.Backend)
+		bad++
+	} else {
+		fmt.Printf("selftest: background axioms not refuted (%s, %v)\n", r.Status, r.All)
+	}
 	fmt.Printf("selftest: %d corpus functions checked, %d unexpected verdicts\n", checked, bad)
 	if bad > 0 {
 		return 1
